@@ -187,7 +187,7 @@ def pick_variant(kind, rng, n, quick_stall=False):
     if kind == 'fill': return f'fill/{rng.choice(FILL_SIZES)}/{rng.choice("pu")}/' + rng.choice(ENDS + ['open'])
     if kind == 'pipelined': return f'pipelined/{rng.choice([2, 3, 20])}'
     if kind == 'burst':
-        k = rng.choice([n, n + 1, 2 * n + 1, 16 * n + 1, 64])
+        k = min(rng.choice([n, n + 1, 2 * n + 1, 16 * n + 1, 64]), 96)     # below the listen backlog (128): what the kernel drops beyond it is not the server's doing
         return f'burst/{k}/{rng.choice(["fwd", "rev", "mix"])}/{rng.below(1 << 16)}'
     if kind == 'hold':
         m = rng.choice([max(n - 1, 0), n - 1 if n > 1 else 1, n, n + 2])
